@@ -23,7 +23,7 @@ var processCreators = map[string]int{
 }
 
 func c18(c *Ctx) {
-	c.R.Explanation = "C18 decided at the level of code paths (SSA of /repo): R-who = every process-creating call (exec.Command*, os.StartProcess, syscall.Exec/ForkExec, literal exec.Cmd) with a non-constant program lies in the one function that performs the permission check; R-dominate = that call is reachable only through the nil-error edge of CheckFilePermissionsForExecution applied to the same SSA value, in the same activation (=> repeated before every execution; the check writes no package-level state), and the error edge returns a non-nil error; R-predicate = every nil-error return of the check crossed edges establishing Uid==0, (Gid==0 or mode&0o020==0), mode&0o002==0 on os.Stat of the EvalSymlinks result; R-config = configuration.Validate applies the check to the config path, a failure yields an error on all paths, and it can be skipped only when neither a cmd fan nor a cmd sensor exists; R-gate = RunDaemon is entered only after Validate succeeded. Not decided: TOCTOU between check and exec (outside the statement)."
+	c.R.Explanation = "C18 decided at the level of code paths (SSA of /repo): R-who = every process-creating call (exec.Command*, os.StartProcess, syscall.Exec/ForkExec, literal exec.Cmd) with a non-constant program lies in the one function that performs the permission check; R-dominate = that call is reachable only through the nil-error edge of CheckFilePermissionsForExecution applied to the same SSA value, in the same activation (=> repeated before every execution; the check writes no package-level state), and the error edge returns a non-nil error; R-samefile = no repository code stores to Dir, Path, Args or SysProcAttr of an exec.Cmd (the program string is resolved identically by the check and by the start); R-predicate = every nil-error return of the check crossed edges establishing Uid==0, (Gid==0 or mode&0o020==0), mode&0o002==0 on os.Stat of the EvalSymlinks result; R-config = configuration.Validate applies the check to the config path, a failure yields an error on all paths, and it can be skipped only when neither a cmd fan nor a cmd sensor exists; R-gate = RunDaemon is entered only after Validate succeeded. Not decided: TOCTOU between check and exec (outside the statement)."
 	c.R.Assumptions = append(c.R.Assumptions,
 		"os/exec, os.Stat, filepath.EvalSymlinks and syscall.Stat_t behave as documented (library summary table)",
 		"constant-program exec calls (who, id, sudo in the desktop notifier) are not sensor/fan commands")
@@ -190,6 +190,39 @@ func c18(c *Ctx) {
 
 	// callers of the checked entry point must not wrap it in a cache either:
 	// every Fan/Sensor cmd method calls it directly (who-may-call is covered by R-who)
+
+	// ---- R-samefile: what is started is the file that was checked ---------------------------
+	// the check and exec.Command* receive the same string; that string names the same file for both only
+	// if nothing changes how it is resolved in between: no store to Cmd.Dir (a relative program is
+	// resolved against Dir), Cmd.Path or Cmd.Args[0] after the command was created.
+	nsf := 0
+	for _, fn := range c.P.Funcs {
+		if !c.P.IsRepoFunc(fn) {
+			continue
+		}
+		Instrs(fn, func(ins ssa.Instruction) {
+			st, ok := ins.(*ssa.Store)
+			if !ok {
+				return
+			}
+			fa, ok := st.Addr.(*ssa.FieldAddr)
+			if !ok {
+				return
+			}
+			o, name, ok := ir.FieldName(fa)
+			if !ok || o == nil || o.Obj().Pkg() == nil || o.Obj().Pkg().Path() != "os/exec" || o.Obj().Name() != "Cmd" {
+				return
+			}
+			switch name {
+			case "Dir", "Path", "Args", "SysProcAttr":
+				nsf++
+				c.R.Bad("R-samefile", c.FK(fn)+"|Cmd."+name, c.FK(fn), c.P.Pos(st.Pos()), "exec.Cmd."+name+" is changed after the command was created: the program string that passed the permission check is then resolved differently (a relative path is looked up under Cmd.Dir), so a file that was never checked can be started")
+			}
+		})
+	}
+	if nsf == 0 {
+		c.R.Ok("R-samefile", c.FK(check), c.FK(check), c.P.Pos(check.Pos()), "no repository code changes Dir, Path, Args or SysProcAttr of an exec.Cmd: the checked string is resolved the same way by the check and by the start")
+	}
 
 	// ---- R-predicate --------------------------------------------------------
 	c.rulePredicate(check, tb)
